@@ -357,6 +357,17 @@ def run_file(rc, cfg, actors_ops):
             if dup:
                 raise Violation("duplicated", "after an I/O error message nid=%d appears %d times in file %s" % (
                     dup[0], cnt[dup[0]], ff.name))
+            # what a write call accepted in full stays in the file, in call order (another thread's failed
+            # write -- or its clean-up -- must not take it away again)
+            pos = 0
+            for c in ff.calls:
+                if c[0] == "write":
+                    i = data.find(c[1], pos)
+                    if i < 0:
+                        raise Violation(("lost", {"how": "written_then_removed"}),
+                                        "the line %r was accepted by a write call that returned normally and is not "
+                                        "in file %s afterwards" % (c[1][:80], ff.name))
+                    pos = i + len(c[1])
             # the write discipline still holds for every call that was made
             for c in ff.calls:
                 if c[0] in ("write", "write!") and (not c[1].endswith(b"\n") or c[1].count(b"\n") != 1):
